@@ -905,3 +905,42 @@ def literal_kind_mismatches(text, unit='stpnt'):
         if stored != written:
             out.append((f"{name}({idx})", rhs, float(stored), float(written)))
     return out
+
+
+def inexact_default_real_literals(text):
+    """default-real literals (no exponent letter d, no kind suffix) in the executable statements of procedures that
+    declare double precision data: Fortran rounds such a literal to binary32 before it takes part in a double precision
+    expression.  Returns [(statement, literal, value_used, value_written)] for the literals binary32 does not hold exactly
+    (decided exactly on rationals).  Declarations, comments and character constants are skipped."""
+    import numpy as _np
+    from fractions import Fraction as _F
+    out = []
+    lit = re.compile(r"(?<![\w.])(\d+\.\d*(?:[eE][+-]?\d+)?|\.\d+(?:[eE][+-]?\d+)?|\d+[eE][+-]?\d+)(?![\w.])")
+    in_unit = False
+    has_double = False
+    pending = []
+    for ln in logical_lines(text):
+        st = ln.strip()
+        low = st.lower()
+        if re.match(r"^(subroutine|function|double\s+precision\s+function|real\s+function)\b", low):
+            in_unit, has_double, pending = True, low.startswith('double'), []
+            continue
+        if re.match(r"^end\s*(subroutine|function)", low):
+            if has_double:
+                out += pending
+            in_unit = False
+            continue
+        if not in_unit:
+            continue
+        if DECL.match(st):
+            has_double = has_double or low.startswith('double')
+            continue
+        code = st.split('!')[0]
+        code = re.sub(r"'[^']*'|\"[^\"]*\"", '', code)
+        for m in lit.finditer(code):
+            x = m.group(1)
+            written = _F(float(x))
+            used = _F(float(_np.float32(float(x))))
+            if used != written:
+                pending.append((code.strip()[:120], x, float(used), float(written)))
+    return out
